@@ -230,6 +230,9 @@ func (w *World) Fail(format string, a ...any) {
 
 type harnessAbort struct{}
 
+// newSubRand derives a private stream for a helper goroutine.
+func newSubRand(w *World, name string) *simnet.Rand { return simnet.NewRand(w.In.Seed, name) }
+
 // Sleep advances simulated time.
 func (w *World) Sleep(d time.Duration) { time.Sleep(d) }
 
